@@ -19,6 +19,7 @@ func init() {
 		Assumptions: []string{"proto.Merge / Marshal+Unmarshal copy; select picks a ready case"},
 		Run:         runC13,
 		Controls: []Control{
+			{Name: "revert-F34-eof-is-the-outcome", File: "pkg/wrap/wrap.go", Old: "if err := cs.SendMsg(args); err != nil && err != io.EOF {", New: "if err := cs.SendMsg(args); err != nil {", More: []Edit{{File: "pkg/wrap/wrap.go", Old: "\t\"io\"\n", New: ""}}, Expect: "R13.9"},
 			{Name: "unknown-method-internal", File: "pkg/wrap/wrap.go", Old: "var ErrMethodNotFound = status.Error(codes.Unimplemented, \"method not found\")", New: "var ErrMethodNotFound = status.Error(codes.Internal, \"method not found\")", Expect: "R13.2"},
 			{Name: "shape-check-after-go", File: "pkg/wrap/wrap.go", Old: "\tif matched.ServerStreams != desc.ServerStreams || matched.ClientStreams != desc.ClientStreams {\n\t\treturn nil, ErrMethodShape\n\t}\n", New: "\tif matched.ServerStreams != desc.ServerStreams {\n\t\treturn nil, ErrMethodShape\n\t}\n", Expect: "R13.2"},
 			{Name: "handler-path-without-close", File: "pkg/wrap/wrap.go", Old: "\t\tif err != nil {\n\t\t\tclientServerStream.Close(err)\n\t\t\treturn\n\t\t}\n\t\terr = ss.SendMsg(res)", New: "\t\tif err != nil {\n\t\t\treturn\n\t\t}\n\t\terr = ss.SendMsg(res)", Expect: "R13.3"},
@@ -42,6 +43,8 @@ func runC13(c *an.Ctx) {
 	r136(c)
 	r137(c)
 	r138(c)
+	r139(c)
+	c.Min("R13.9", 1)
 	c.Min("R13.8", 1)
 	c.Min("R13.1", 3)
 	c.Min("R13.2", 5)
@@ -634,4 +637,82 @@ func r138(c *an.Ctx) {
 		}
 	}
 	c.Check(okErr, rule, "(*pkg/wrap.wrapper).Invoke|the handler's status is what the caller receives", fn.Pos(), "", "Invoke does not return RecvMsg's error")
+}
+
+// r139: the terminal outcome of a unary call is what RecvMsg reports. io.EOF from SendMsg only says
+// "the call has already ended" (cancelled context, early server status); returning it hides the reason.
+func r139(c *an.Ctx) {
+	const rule = "R13.9"
+	fn := mustFunc(c, rule, wrapPkg, "wrapper", "Invoke")
+	if fn == nil {
+		return
+	}
+	cons := "(*pkg/wrap.wrapper).Invoke|io.EOF from sending is not the call's outcome"
+	n := 0
+	bad := ""
+	var where token.Pos = fn.Pos()
+	an.Instrs(fn, func(in ssa.Instruction) {
+		call, ok := in.(*ssa.Call)
+		if !ok || !call.Call.IsInvoke() || call.Call.Method.Name() != "SendMsg" {
+			return
+		}
+		n++
+		for _, r := range an.Returns(fn) {
+			returnsIt := false
+			for _, v := range an.ValuesAt(r.Results[0]) {
+				if v == ssa.Value(call) {
+					returnsIt = true
+				}
+			}
+			if !returnsIt {
+				continue
+			}
+			// guarded by `err != io.EOF` (or !errors.Is(err, io.EOF))
+			notEOF := false
+			for _, e := range an.GuardingEdges(r) {
+				switch cond := e.If.Cond.(type) {
+				case *ssa.BinOp:
+					if cond.Op != token.NEQ && cond.Op != token.EQL {
+						continue
+					}
+					for _, pair := range [][2]ssa.Value{{cond.X, cond.Y}, {cond.Y, cond.X}} {
+						ld, isLoad := pair[1].(*ssa.UnOp)
+						if !isLoad {
+							continue
+						}
+						g, isG := ld.X.(*ssa.Global)
+						if !isG || g.Pkg.Pkg.Path() != "io" || g.Name() != "EOF" {
+							continue
+						}
+						same := false
+						for _, s := range an.ValuesAt(pair[0]) {
+							if s == ssa.Value(call) {
+								same = true
+							}
+						}
+						if same && e.Branch == (cond.Op == token.NEQ) {
+							notEOF = true
+						}
+					}
+				case *ssa.Call:
+					if an.CalleeName(cond) == "errors.Is" && !e.Branch {
+						if ld, isLoad := cond.Call.Args[1].(*ssa.UnOp); isLoad {
+							if g, isG := ld.X.(*ssa.Global); isG && g.Pkg.Pkg.Path() == "io" && g.Name() == "EOF" {
+								notEOF = true
+							}
+						}
+					}
+				}
+			}
+			if !notEOF {
+				bad = "Invoke returns SendMsg's error as the outcome of the call even when it is io.EOF"
+				where = r.Pos()
+			}
+		}
+	})
+	if n == 0 {
+		c.Unk(rule, cons, fn.Pos(), "no SendMsg in Invoke")
+		return
+	}
+	c.Check(bad == "", rule, cons, where, "", bad+": a unary call on an already cancelled (or expired) context returns io.EOF instead of the cancellation, and a status the server returned before reading the request is lost; grpc's own Invoke goes on to RecvMsg in that case")
 }
